@@ -230,6 +230,28 @@ def wTriplesQuery (p : TPatT) (order : Option Pos) (limit offset : Option Nat) :
       | none => q
     some q
 
+/-- the attributes `LIMIT`, `OFFSET`, `"ORDER BY"` of the context graph as `SPARQLStore.triples` sees them: unset / the
+    integer; `"ORDER BY"`: unset / set to something that is no `Variable` (`some none`) / set to the variable of a position -/
+structure SliceAttrs where
+  limit : Option Nat
+  offset : Option Nat
+  orderBy : Option (Option Pos)
+  deriving Repr, DecidableEq
+
+/-- `if hasattr(context, LIMIT) or hasattr(context, OFFSET) or hasattr(context, ORDERBY):` then the first of s, p, o that
+    is a variable, else (fully bound) the `"ORDER BY"` attribute when it is a Variable, else nothing.
+    `unb` = which positions are unbound. -/
+def sliceOrderS (unb : Bool × Bool × Bool) (a : SliceAttrs) : Option Pos :=
+  if a.limit.isSome || a.offset.isSome || a.orderBy.isSome then
+    if unb.1 then some .s else if unb.2.1 then some .p else if unb.2.2 then some .o
+    else a.orderBy.join
+  else none
+
+def sliceOrder (p : TPatT) (a : SliceAttrs) : Option Pos := sliceOrderS (p.1.isNone, p.2.1.isNone, p.2.2.isNone) a
+
+/-- the query `triples(pattern, context)` sends when the context carries slice attributes -/
+def wSliceQuery (p : TPatT) (a : SliceAttrs) : Option Str := wTriplesQuery p (sliceOrder p a) a.limit a.offset
+
 def lenQueryText : Str := "SELECT (count(*) as ?c) WHERE {?s ?p ?o .}".toList
 
 def wContexts : Option TPatT → Option Str
